@@ -51,6 +51,17 @@ type Frame struct {
 	curIdx   int
 	parent   *Frame
 	instrOrd map[ssa.Instruction]int
+	callRes  map[string][]Val
+	curState *State
+}
+
+// resLookup serves res("<selector>#k", i) in contracts of this frame's function.
+func (f *Frame) resLookup(key string, i int) (Val, bool) {
+	vs, ok := f.callRes[key]
+	if !ok || i >= len(vs) {
+		return Val{}, false
+	}
+	return vs[i], true
 }
 
 type hdrInfo struct {
@@ -738,7 +749,13 @@ func (f *Frame) convert(in ssa.Instruction, x ssa.Value, to types.Type, reach Te
 		c.note("string to []byte conversion (contents uninterpreted)")
 		r := c.fresh("bytes", SSlice)
 		c.assume(tAnd(tEq(app(c.I(), "sl_len", r), app(c.I(), "str_len", v)), tEq(app(c.I(), "sl_off", r), c.intConst(0, c.I())),
-			c.ile(app(c.I(), "sl_len", r), app(c.I(), "sl_cap", r))), false)
+			c.ile(app(c.I(), "sl_len", r), app(c.I(), "sl_cap", r)), c.typeRange(app(c.I(), "sl_cap", r), types.Typ[types.Int])), false)
+		if f.curState != nil {
+			// the conversion allocates a fresh backing array
+			na := c.define(f.name("bytes_arr"), app(SInt, "+", f.curState.alloc, intLit(1)))
+			f.curState.alloc = na
+			c.assume(tEq(app(SInt, "sl_arr", r), na), false)
+		}
 		return r
 	}
 	if fs == SSlice && ts == SStr {
@@ -971,6 +988,7 @@ func (f *Frame) execBlock(b *ssa.BasicBlock, st *State, reach Term) {
 	}
 	for i := start; i < len(b.Instrs); i++ {
 		f.curIdx = i
+		f.curState = st
 		f.markEscapes(b.Instrs[i])
 		f.execInstr(b.Instrs[i], st, reach)
 		switch a := b.Instrs[i].(type) {
@@ -1331,6 +1349,7 @@ func (f *Frame) envAt(st *State, b *ssa.BasicBlock, idx int) *Env {
 		env.vars[k] = v
 	}
 	env.local = func(name string) (Val, bool) { return f.lookupLocal(name, b, idx, st, nil) }
+	env.res = f.resLookup
 	return env
 }
 
